@@ -98,6 +98,53 @@ fn selftest() {
     if u64::from_le_bytes(b) != 5029875928683246316 {
         fail("pcg32_expand(0)");
     }
+    // HC-128: Wu's test vectors 1 and 2 (first 16 keystream words).
+    {
+        use rngs_harness::ref_hc128 as rh;
+        let v1: [u32; 16] = [0x73150082, 0x3bfd03a0, 0xfb2fd77f, 0xaa63af0e, 0xde122fc6, 0xa7dc29b6, 0x62a68527, 0x8b75ec68,
+                             0x9036db1e, 0x81896005, 0x00ade078, 0x491fbf9a, 0x1cdc3013, 0x6c3d6e24, 0x90f664b2, 0x9cd57102];
+        let v2: [u32; 4] = [0xc01893d5, 0xb7dbe958, 0x8f65ec98, 0x64176604];
+        for (iv0, exp) in [(0u32, &v1[..]), (1u32, &v2[..])] {
+            let (mut p, mut q) = ([0u32; 512], [0u32; 512]);
+            rh::init([0; 4], [iv0, 0, 0, 0], &mut p, &mut q);
+            for (k, &e) in exp.iter().enumerate() {
+                if rh::step(&mut p, &mut q, k) != e {
+                    fail(&format!("hc128 vector iv0={} word {}", iv0, k));
+                }
+            }
+        }
+    }
+    // ISAAC: Jenkins' randvect (randinit(TRUE) on an all-zero seed) and the
+    // generator used unseeded (one pass), ISAAC-64 unseeded.
+    {
+        use rngs_harness::ref_isaac as ri;
+        let mut g = ri::Isaac { mm: ri::randinit32(&[0; 256], 2), aa: 0, bb: 0, cc: 0, randrsl: [0; 256] };
+        // Jenkins' test driver: randinit() runs isaac() once, the print loop runs it again first
+        g.isaac();
+        g.isaac();
+        let rv = [0xf650e4c8u32, 0xe448e96d, 0x98db2fb4];
+        for k in 0..3 {
+            if g.randrsl[k] != rv[k] {
+                fail(&format!("isaac randvect word {}", k));
+            }
+        }
+        let mut g = ri::Isaac { mm: ri::randinit32(&[0; 256], 1), aa: 0, bb: 0, cc: 0, randrsl: [0; 256] };
+        g.isaac();
+        let un = [0x71D71FD2u32, 0xB54ADAE7, 0xD4788559, 0xC36129FA];
+        for k in 0..4 {
+            if g.randrsl[255 - k] != un[k] {
+                fail(&format!("isaac unseeded word {}", k));
+            }
+        }
+        let mut g = ri::Isaac64 { mm: ri::randinit64(&[0; 256], 1), aa: 0, bb: 0, cc: 0, randrsl: [0; 256] };
+        g.isaac64();
+        let un64 = [0xF67DFBA498E4937Cu64, 0x84A5066A9204F380, 0xFEE34BD5F5514DBB];
+        for k in 0..3 {
+            if g.randrsl[255 - k] != un64[k] {
+                fail(&format!("isaac64 unseeded word {}", k));
+            }
+        }
+    }
     println!("SELFTEST-OK");
 }
 
